@@ -14,7 +14,7 @@ func init() {
 	register("ASSERT", "every single-result type assertion x.(T) is dominated by the success edge of a comma-ok assertion / type-switch arm on the same value with the same type (it cannot panic); frozen exemptions carry a checked side condition", ruleAssert)
 	register("DIVGUARD", "every integer division or remainder whose divisor is not a non-zero constant is dominated by a test that the divisor is not zero", ruleDivGuard)
 	register("ARITY", "every call through the Body/BodyVec field of a registered function is preceded on every path by both arity tests (fixed arity: len(args) == NumArgs; variadic: len(args) >= NumArgs); a registered body indexes args[k] with a constant k only if k < NumArgs of every row registering it or under a len(args) guard", ruleArity)
-	register("BODYKIND", "for every row of the scalar function registry the dynamic types boxed into the result of Body and of BodyVec belong to the declared ReturnType (TSTR: string; TNUMBER: int64/float64/int; TBOOL: bool; TLIST: slices; TJSON: JSON) and the two twins box the same types", ruleBodyKind)
+	register("BODYKIND", "for every row of the scalar function registry the dynamic types boxed into the result of Body and of BodyVec belong to the declared ReturnType (TSTR: string; TNUMBER: int64/float64/int; TBOOL: bool; TLIST: slices; TJSON: JSON, or []any for an array document) and the two twins box the same types", ruleBodyKind)
 	register("LISTCOVER", "every list consumer (len, [n] indexing in both modes, the distance functions' vector conversion, IN over a function result in both modes) has a case for every representation a list producer can box (the registry's TLIST bodies; plus []any from JSON arrays for len and indexing)", ruleListCover)
 	register("ADMIT", "what the type checker admits for = and != (operands of the same static type TSTR, TNUMBER or TBOOL) is handled by both executors: the type switch on the evaluated left operand in execEqual and execEqualBatch has a case for every representation those static types can take (no operand-type error on a well-typed statement)", ruleAdmit)
 	register("PRIMWIRE", "every documented scalar function name is registered and both its row and vector body reach the documented primitive (upper->strings.ToUpper, lower->strings.ToLower, split->strings.Split, join->strings.Join, int/is_int->strconv.ParseInt base 10, float/is_float->strconv.ParseFloat, json->json.Unmarshal, distances->math.Sqrt with a length-equality error, len/strlen->len); distinct names have distinct bodies except the documented aliases; every aggregate name has its own constructor and accumulator type", rulePrimWire)
@@ -230,7 +230,7 @@ var retTypeKinds = map[string]func(k string) bool{
 	"TNUMBER": func(k string) bool { return k == "int64" || k == "float64" || k == "int" },
 	"TBOOL":   func(k string) bool { return k == "bool" },
 	"TLIST":   func(k string) bool { return strings.HasPrefix(k, "[]") },
-	"TJSON":   func(k string) bool { return k == "JSON" },
+	"TJSON":   func(k string) bool { return k == "JSON" || k == "[]any" || k == "[]interface{}" }, // a JSON document is an object or an array
 }
 
 func ruleBodyKind(p *Prog, r *Result) {
@@ -837,6 +837,41 @@ func ruleListCover(p *Prog, r *Result) {
 		}
 		sort.Strings(missing)
 		r.add(len(missing) == 0, key, pos, fmt.Sprintf("%s handles %v; missing %v", what, keysOf(have), missing))
+	}
+	// json(): the document may be an array (the README hands json(value) of a stored embedding to l2_distance);
+	// unmarshalling into a map only fails for an array, and the dropped error leaves an empty object
+	for _, row := range rows {
+		if row.Key != "json" {
+			continue
+		}
+		for which, body := range map[string]*ssa.Function{"Body": row.Body, "BodyVec": row.BodyVec} {
+			if body == nil {
+				continue
+			}
+			target := ""
+			for _, f := range p.staticClosure(body, 2, nil) {
+				allInstrs(f, func(in ssa.Instruction) {
+					c, ok := in.(*ssa.Call)
+					if !ok || p.calleeName(&c.Call) != "encoding/json.Unmarshal" || len(c.Call.Args) != 2 {
+						return
+					}
+					a := c.Call.Args[1]
+					if mi, ok := a.(*ssa.MakeInterface); ok {
+						a = mi.X
+					}
+					if pt, ok := a.Type().Underlying().(*types.Pointer); ok {
+						if _, isI := pt.Elem().Underlying().(*types.Interface); isI {
+							target = "any"
+						} else if target == "" {
+							target = pt.Elem().String()
+						}
+					}
+				})
+			}
+			if target != "" {
+				r.add(target == "any", "json|"+which+"|array-document", p.Pos(body.Pos()), fmt.Sprintf("json() unmarshals the document into a value of any kind (target type %s): an array document is a list, not an empty object", target))
+			}
+		}
 	}
 	// list(): the README documents int, str and float element types
 	for _, row := range rows {
